@@ -238,6 +238,10 @@ func findBit(bytes []byte, startIndex, endIndex, width int, searchBit, noEnd boo
 	if startBit > end {
 		return -1
 	}
+	if endBit < 0 {
+		// an end before the beginning is the beginning, as for start
+		endBit = 0
+	}
 	if endBit < startBit {
 		return -1
 	} else if endBit > end {
